@@ -23,6 +23,7 @@ var verifNotified []types.Uid
 // knobs for focused variants
 var verifPrevBase = types.ModeCPublic // fixed bits of the former member's stored modes
 var verifForceActor = -1              // index into allUsers(), -1 = any
+var verifForceTarget = -1             // index into allUsers() for {set sub user=...}, -1 = any
 
 // bits of every requested/granted/stored mode that are symbolic (a knob: focused harnesses widen it)
 var verifSubBits = types.ModeOwner | types.ModeJoin | types.ModeApprove | types.ModeShare
@@ -183,7 +184,11 @@ func (w *verifSubWorld) step(opFixed int) (op int, target types.Uid, replies []*
 		msg.MetaWhat = constMsgMetaSub
 		t.handleMeta(&msg)
 	case verifOpSetOther:
-		target = users[verifChoose("target", len(users))]
+		if verifForceTarget >= 0 {
+			target = users[verifForceTarget]
+		} else {
+			target = users[verifChoose("target", len(users))]
+		}
 		verifAssume(target != w.actor)
 		msg := base
 		msg.Set = &MsgClientSet{Id: "r1", Topic: t.name, MsgSetQuery: MsgSetQuery{Sub: &MsgSetSub{User: target.UserId(), Mode: verifReqMode("grantMode")}}}
